@@ -224,9 +224,10 @@ def r103(ctx):
             if contains(vals, lambda s: s is c.data["result"]):
                 pred = c.data["result"]
         ok = False
+        drawn = None
         why = "the value vector is not a row of the stored predictors' outputs"
         if pred is not None and p is not None:
-            b = {"pred": pred, "I": i}
+            b = {"pred": pred, "I": i, "np": glob("numpy")}
             w = A.at(e, "self.weights_")
             b["w"] = w
             ok_pairs = [("pred.iloc[I, :]", "w[pred.columns]"), ("pred.iloc[I]", "w[pred.columns]"),
@@ -236,6 +237,23 @@ def r103(ctx):
             for vs, ps in ok_pairs:
                 if A.eq(vals, A.spec(vs, b)) and A.eq(p, A.spec(ps, b)):
                     ok = True
+            # the draw of a position: k = choice(len(S), p=w[S]) selects column k of pred[S] - values and probabilities are both
+            # ordered by the same label list S (whatever S is: numpy rejects probabilities that do not sum to one)
+            drawn = None
+            cv = A.C.canon(vals)
+            if not ok and cv.op == "fn" and cv.args[0] == "len" and len(cv.args) == 2 and vals.op == "call" and len(vals.args[1]) == 1:
+                b["S"] = vals.args[1][0]
+                if any(A.eq(p, A.spec(ps, b)) for ps in ("w[S]", "w.loc[S]", "w.reindex(S)")):
+                    mats = [A.spec(m_, b) for m_ in ("pred[S].to_numpy()", "pred[S].values", "pred.loc[:, S].to_numpy()", "pred.loc[:, S].values",
+                                                      "np.asarray(pred[S])")]
+                    b["K"] = e.data["result"]
+                    for x in r.events:
+                        if x.kind == "store" and x.data.get("tkind") == "sub" and x.loops == e.loops and contains(x.data["value"], lambda s_: s_ is e.data["result"]):
+                            for m_ in mats:
+                                b["M"] = m_
+                                if A.eq(x.data["value"], A.spec("M[I, K]", b)) or A.eq(x.data["value"], A.spec("M[I][K]", b)):
+                                    drawn = x
+                    ok = drawn is not None
             why = (f"choice(values={A.show(vals, 90)}, p={A.show(p, 90)}) pairs the i-th value with the i-th probability by "
                    "position although the two are ordered differently (columns by predictor id, weights by first use)")
         ctx.ob("R10.3", r.func, e.node, ok, "values and probabilities handed to choice() are ordered by the same index" if ok
@@ -246,7 +264,7 @@ def r103(ctx):
         okr = rows is not None and any(A.eq(lev.data["iter"], A.spec(s_, {"n": rows, "pred": pred, "len": glob("builtins.len")}))
                                        for s_ in ("range(n)", "range(0, n)", "range(len(pred))"))
         sts = [x for x in r.events if x.kind == "store" and x.data.get("tkind") == "sub" and x.loops == e.loops
-               and x.data["value"] is e.data["result"]]
+               and (x.data["value"] is e.data["result"] or (pred is not None and p is not None and x is drawn))]
         okr = okr and len(sts) == 1 and sts[0].data["key"] is i
         if okr:
             holder = root_of(sts[0].data["obj"])
